@@ -412,8 +412,13 @@ METHODS = ['_shift_settings_idx', 'ljust', 'rjust', 'center', 'assign_str', 'cli
            dict(py='ansi_settings_at', lean='ansiSettingsAtCode', ret='slist'),
            dict(py='apply_formatting', lean='applyCore', after='_scrub_ansi_settings', join=True,
                 entry=[('ansi_settings', 'slist'), ('start', 'int'), ('end', 'int'), ('topmost', 'bool')]),
+           dict(py='_apply_string_format', lean='applyStringFormatCode', extra=[('nid', 'nat')],
+                types={'settings': 'optstr'}),
            dict(py='to_str', lean='renderCore', after_store='ifany:optimize', ret='str', join=True,
                 entry=[('obj', 'obj'), ('optimize', 'bool'), ('reset_start', 'bool'), ('reset_end', 'bool')]),
+           dict(py='to_str', lean='toStrCode', ret='str', extra=[('nid', 'nat')], join=True,
+                outline=dict(call='renderCore', after_store='ifany:optimize',
+                             entry=[('obj', 'obj'), ('optimize', 'bool'), ('reset_start', 'bool'), ('reset_end', 'bool')])),
            dict(py='find_settings', lean='findCore', after='_scrub_ansi_settings', ret='optpair', join=True,
                 entry=[('ansi_settings', 'slist'), ('start', 'int'), ('end', 'int'), ('reverse', 'bool')]),
            dict(py='__getitem__', lean='getItemCore', after_store='new_s._s', join=True,
@@ -451,6 +456,8 @@ def generate_methods(repo):
              '    One method of the source, translated statement by statement. -/',
              'import AnsiModel.Obj', 'import AnsiModel.Replay', 'import AnsiModel.PyStr', 'import AnsiModel.Render', 'import AnsiModel.Generated.Tables',
              'import AnsiModel.Generated.Wrappers']
+        if 'regex_' in text:
+            L.append('import AnsiModel.Generated.Regexes')
         L += ['import AnsiModel.Generated.Methods.%s' % (d[0].upper() + d[1:]) for d in deps]
         L += ['', 'namespace Gen', '', text, 'end Gen', '']
         files['Methods/%s.lean' % mod] = '\n'.join(L)
